@@ -6573,6 +6573,9 @@ static std::vector<ValueFlow::Value> getInitListSize(const Token* tok,
     }
     if (!initList)
         return getContainerSizeFromConstructorArgs(args, valueType->container, known);
+    // a container with unique keys may hold fewer elements than the list has
+    if (valueType->container->stdAssociativeLike && args.size() > 1)
+        known = false;
     return {makeContainerSizeValue(args.size(), known)};
 }
 
@@ -6585,8 +6588,17 @@ static std::vector<ValueFlow::Value> getContainerSizeFromConstructor(const Token
     if (args.empty())
         return {makeContainerSizeValue(MathLib::bigint{0}, known)};
     // Init list in constructor
-    if (args.size() == 1 && Token::simpleMatch(args[0], "{"))
+    if (args.size() == 1 && Token::simpleMatch(args[0], "{")) {
+        // T c{{x, y}}: the inner braces are the initializer list only if they cannot initialise a single element
+        bool elementFromBraces = valueType->container->stdAssociativeLike;
+        if (!elementFromBraces && valueType->containerTypeToken) {
+            const ValueType vt = ValueType::parseDecl(valueType->containerTypeToken, settings);
+            elementFromBraces = !(vt.pointer > 0 || vt.isIntegral() || vt.isFloat());
+        }
+        if (elementFromBraces)
+            return {};
         return getInitListSize(args[0], valueType, settings, known);
+    }
     return getContainerSizeFromConstructorArgs(args, valueType->container, known);
 }
 
